@@ -140,7 +140,8 @@ func init() {
 	}, orcaAssumptions...),
 		Quick: []Job{{Pkg: "./zz_verif/orcah", Func: "ZZLockFault", Params: map[string]int64{"concurrency": 1, "getkeys": 2, "failpositions": 3},
 			Reach:  []string{"loop-returned", "second-parse", "next-commands-done"},
-			Bounds: "Locked(L1Only|L1L2|L1L2Batch), single/multi reader, 2 stripes; 9 command kinds, gets of 1-2 keys; fault at handler call 0 or 1 of L1 or L2 (or none), kinds I/O error / app error / panic"}},
+			Bounds: "Locked(L1Only|L1L2|L1L2Batch), single/multi reader, 2 stripes; 9 command kinds, gets of 1-2 keys; fault at handler call 0 or 1 of L1 or L2, or at responder call 0 or 1 (write error / panic while replying), or none; kinds I/O error / app error / panic"},
+			{Pkg: "./zz_verif/orcah", Func: "ZZLockWiring", Name: "three-key-get-lock-log", Reach: []string{"wired"}, Bounds: "a 3-key get over 1-4 stripes through instrumented lockers: never two key locks at once (see C03)"}},
 		Thorough: []Job{{Pkg: "./zz_verif/orcah", Func: "ZZLockFault", Params: map[string]int64{"getkeys": 3, "failpositions": 5}, Name: "ZZLockFault-deep",
 			Reach:  []string{"loop-returned", "second-parse", "next-commands-done"},
 			Bounds: "as quick, plus 1 and 2 stripes, gets of 1-3 keys, fault at handler call 0..3"}},
@@ -236,7 +237,7 @@ func init() {
 		"float64(int) conversions proven exact (|x| <= 2^53) by a solver query are carried as integers (min/compare/convert back)",
 		"reader step: induction over Reads from the iterator invariant; buffer lengths above 8 are outside the bound",
 		"composition with the real handler runs (every data Set the backend sees has the full chunk length) is asserted by the C04 handler harness",
-	}, stdAssumptions...), Quick: append(c16q, cstep("handler-entry-sizes", map[string]int64{"lenset": 1}, []string{"c16-"}, csb+"every data entry the backend receives has the full chunk size, every metadata entry 40 bytes; value lengths {p-1,p,p+1}")), Thorough: c16t})
+	}, stdAssumptions...), Quick: append(append(c16q, cstep("append-to-foreign-layout", map[string]int64{"lenset": 1, "foreign": -9, "cmd": 3}, []string{"c16-", "c04-result", "c04-value", "c04-backend-state"}, csb+"append to an item that was stored with another chunk geometry (payload 9 bytes smaller): what is written back has this handler's entry sizes")), cstep("handler-entry-sizes", map[string]int64{"lenset": 1}, []string{"c16-"}, csb+"every data entry the backend receives has the full chunk size, every metadata entry 40 bytes; value lengths {p-1,p,p+1}")), Thorough: c16t})
 
 	reg(Check{ID: "C15", Level: "model_checking", Assumptions: append([]string{
 		"A14: the network is an in-memory fake listener/connection pair; the handler constructors open one connection per call to in-process memcached models (real std handlers on top); net.Dial is not exercised",
